@@ -111,7 +111,7 @@ pub fn generic(case: &Case) -> Vec<Case> {
         let mut c = case.clone();
         for o in &mut c.ops {
             if let WOp::Append { src, .. } | WOp::Add { src, .. } = o {
-                *src = Src { sched: Sched::Full, short_by: src.short_by, extra: 0 };
+                *src = Src { sched: Sched::Full, short_by: src.short_by, extra: 0, stream: false };
             }
         }
         out.push(c);
